@@ -185,6 +185,82 @@ impl std::io::Read for Trickle<'_> {
     }
 }
 
+/// Decoding is a function of the document: the same documents decoded by 16 threads at once must give
+/// what they give one after another (nested maps, so that a lot of decoding state is open at the same time).
+fn concurrent_nested(ctx: &Ctx) -> crate::engine::SubReport {
+    use rbx_types::Attributes;
+    let mut r = crate::engine::SubReport::new("concurrent-nested");
+    let start = std::time::Instant::now();
+    if ctx.cfg.replay.is_some() {
+        return r;
+    }
+    let nested = |depth: usize, salt: u64| -> Variant {
+        let mut v = Variant::Float64(salt as f64 + 0.5);
+        for d in 0..depth {
+            let mut a = Attributes::new();
+            a.insert(format!("level{d}"), v);
+            a.insert("flag".into(), Variant::Bool(d % 2 == 0));
+            v = Variant::Attributes(a);
+        }
+        v
+    };
+    let docs: Vec<(Variant, String, Vec<u8>, Vec<u8>)> = (0..8u64)
+        .map(|k| {
+            let v = nested(20 + k as usize, k);
+            (v.clone(), serde_json::to_string(&v).unwrap(), rmp_serde::to_vec_named(&v).unwrap(), bincode::serialize(&v).unwrap())
+        })
+        .collect();
+    let decode_all = |rounds: usize| -> Result<(), String> {
+        for i in 0..rounds {
+            let (want, json, mp, bc) = &docs[i % docs.len()];
+            let want = observe(want);
+            let got: Variant = serde_json::from_str(json).map_err(|e| format!("from_str: {e}"))?;
+            if observe(&got) != want {
+                return Err("from_str decoded another value".into());
+            }
+            let got: Variant = serde_json::from_reader(json.as_bytes()).map_err(|e| format!("from_reader: {e}"))?;
+            if observe(&got) != want {
+                return Err("from_reader decoded another value".into());
+            }
+            let got: Variant = rmp_serde::from_slice(mp).map_err(|e| format!("msgpack: {e}"))?;
+            if observe(&got) != want {
+                return Err("msgpack decoded another value".into());
+            }
+            let got: Variant = bincode::deserialize(bc).map_err(|e| format!("bincode: {e}"))?;
+            if observe(&got) != want {
+                return Err("bincode decoded another value".into());
+            }
+        }
+        Ok(())
+    };
+    // one after another first: this is the reference behaviour
+    if let Err(e) = decode_all(docs.len()) {
+        r.inconclusive.push(format!("nested attribute maps do not decode even sequentially: {e}"));
+        return r;
+    }
+    let rounds = ctx.cfg.tier.pick(400usize, 6000);
+    let errors: std::sync::Mutex<Vec<String>> = std::sync::Mutex::new(Vec::new());
+    std::thread::scope(|s| {
+        for _ in 0..16 {
+            s.spawn(|| match crate::engine::catch(|| decode_all(rounds)) {
+                Ok(Ok(())) => {}
+                Ok(Err(e)) => errors.lock().unwrap().push(e),
+                Err(info) => errors.lock().unwrap().push(format!("panic: {}", info.msg)),
+            });
+        }
+    });
+    r.evaluations = (16 * rounds * 4) as u64;
+    r.distinct_nontrivial = r.evaluations;
+    r.notes.push("16 threads decode 8 documents of 20-27 nested attribute maps through 4 entry points at the same time; a stress sample of the interleavings".into());
+    if let Some(e) = errors.into_inner().unwrap().first() {
+        let msg = format!("a document that decodes on its own fails or changes when 16 threads decode at the same time: {e}");
+        let replay = crate::engine::write_replay("C17", "concurrent-nested", &serde_json::json!({"rounds": rounds}), "serde:concurrent-decode", &msg);
+        r.failures.push(crate::engine::Failure { key: "serde:concurrent-decode".into(), msg, replay: Some(replay) });
+    }
+    r.wall_s = start.elapsed().as_secs_f64();
+    r
+}
+
 /// Decoders must not remember a failed call: a rejected document, then a valid one on the same thread.
 #[derive(Clone, Debug, Serialize, Deserialize)]
 pub struct AfterFailure {
@@ -514,6 +590,9 @@ pub fn run(ctx: &Ctx) -> PropertyReport {
             r.floor(l, cases / 500);
         }
         rep.push(r);
+    }
+    if sub.runs("concurrent-nested") {
+        rep.push(concurrent_nested(ctx));
     }
     if sub.runs("after-failure") {
         let cases = ctx.cfg.cases(60_000, 1_000_000);
